@@ -1,10 +1,17 @@
 #!/bin/sh
+# re-evaluate round-4 changes that were missed: strengthened own check, or a related property's check
 cd /verif
-run() { timeout 4000 python3 tools/evalmut.py $1 /verif/seeded/$1-$2 --checks=$3 >> .work/cross5.log 2>&1; }
-run C06 m4 C06 &
-run C16 m4 C06 &
-wait
-run C06 m3 C06 &
-run C06 m1 C06 &
-wait
-echo CROSS5DONE >> .work/cross5.log
+cat <<L | xargs -P 2 -I{} sh -c 'set -- {}; timeout 3000 python3 tools/evalmut.py $1 /verif/seeded/$2 --checks=$3 >> .work/cross5.log 2>&1'
+C07 C07-m5 C07
+C04 C04-m6 C09
+C11 C11-m5 C11
+C08 C08-m5 C08
+C01 C01-m5 C17
+C14 C14-m6 C17
+C02 C02-m6 C02
+C08 C08-m6 C01
+C16 C16-m5 C06
+C06 C06-m6 C06
+C17 C17-m6 C04
+L
+echo CROSSDONE >> .work/cross5.log
